@@ -84,7 +84,9 @@ def judge(arrivals, tps, nticks, delivered, P):
         x, ok = allowed_ticks(text, tps)
         got = seen.get(pid)
         if got is None:
-            if min(ok) <= nticks - 1:
+            # required only if every allowed tick lies inside the run (an arrival a rounding error above boundary k may
+            # legitimately fall in tick k+1, which can be beyond the end)
+            if max(ok) <= nticks - 1:
                 if is_known_late(text, tps, nticks) and max(ok) == nticks - 1:
                     known += 1
                     P("C13:late", f"{pid} arrival {text} s at {tps} ticks/s not delivered in the last tick {nticks - 1}", known="late-on-grid")
